@@ -85,8 +85,18 @@ def strategy(ctx):
 def run(ctx):
     n = 18 if ctx.quick else 300
     cases = configs.collect(strategy(ctx), ctx.seed, n)
-    cases += runcheck.known_cases("C09")
+    known = runcheck.known_cases("C09")
+    cases += [c for c in known if c.get("kind") not in (
+        "direct-history", "dist-cell")]
     out = runcheck.execute_cases(ctx, "c09", cases, make_history, judge)
+    from .. import c09_direct
+
+    out.merge(c09_direct.run_cells(ctx))
+    for c in known:
+        if c.get("kind") in ("direct-history", "dist-cell"):
+            c = {k: v for k, v in c.items() if k != "labels"}
+            for v in replay(ctx, c):
+                out.add(v)
     try:
         from .. import c09_dist
     except ImportError:
@@ -100,18 +110,26 @@ def run(ctx):
 
 
 def health(ctx, stats):
-    need = {"completed": 8, "pool:FlowProposal": 3,
-            "pool:RejectionProposal": 3, "pool:ImportanceFlowProposal": 2}
+    c = stats.classes
+    flow_pools = sum(v for k, v in c.items()
+                     if k.startswith("pool:") and k.endswith("FlowProposal"))
+    probs = []
+    need = {"completed": 6, "direct-history": 20}
     if not ctx.quick:
-        need = {"completed": 150, "pool:FlowProposal": 80,
-                "pool:RejectionProposal": 80,
-                "pool:ImportanceFlowProposal": 40,
-                "pool:AugmentedFlowProposal": 10}
-    return [f"class {k}: {stats.classes.get(k, 0)} < {v}"
-            for k, v in need.items() if stats.classes.get(k, 0) < v]
+        need = {"completed": 150, "direct-history": 400}
+    for k, v in need.items():
+        if c.get(k, 0) < v:
+            probs.append(f"class {k}: {c.get(k, 0)} < {v}")
+    if flow_pools < (4 if ctx.quick else 100):
+        probs.append(f"only {flow_pools} histories with flow-based pools")
+    return probs
 
 
 def replay(ctx, case):
+    if case.get("kind") == "direct-history":
+        from .. import c09_direct
+
+        return c09_direct.replay_cell(ctx, case)
     if case.get("kind") == "dist-cell":
         from .. import c09_dist
 
